@@ -370,10 +370,15 @@ func signature(rng *rand.Rand, idx int) (circuit.IO, circuit.IO, string) {
 			}
 			return io
 		}
-		if idx%16 == 13 {
-			return many(2050+rng.Intn(700), "i"), mk(1), "many-inputs"
+		// every fourth of these has more than 32768 arguments (a header line beyond 64 KiB)
+		big := 0
+		if idx%64 >= 48 {
+			big = 31000
 		}
-		return many(2, "i"), many(2050+rng.Intn(700), "o"), "many-outputs"
+		if idx%16 == 13 {
+			return many(2050+big+rng.Intn(700), "i"), mk(1), "many-inputs"
+		}
+		return many(2, "i"), many(2050+big+rng.Intn(700), "o"), "many-outputs"
 	}
 	switch idx % 8 {
 	case 6: // a header longer than the parser's 4096-byte buffer: a struct argument with many fields
